@@ -72,6 +72,8 @@ enum ErrorKind {
     ResultingBytecodeIsTooLarge(usize),
     #[error("too many targets in assignment ({0})")]
     TooManyAssignmentTargets(usize),
+    #[error("too many values in assignment ({0})")]
+    TooManyAssignmentValues(usize),
     #[error("too many patterns in match arm ({0})")]
     TooManyMatchPatterns(usize),
     #[error(
@@ -1463,6 +1465,11 @@ impl Compiler {
         let rhs_node = ctx.node_with_span(expression);
         let rhs_is_temp_tuple = matches!(rhs_node.node, Node::TempTuple(_));
 
+        // Elements of a temp tuple are accessed with signed 8-bit indices
+        if rhs_is_temp_tuple && targets.len() > i8::MAX as usize + 1 {
+            return self.error(ErrorKind::TooManyAssignmentTargets(targets.len()));
+        }
+
         let result = self.assign_result_register(ctx)?;
         let stack_count = self.stack_count();
         let rhs = self.compile_node(expression, ctx.with_any_register())?;
@@ -1581,6 +1588,11 @@ impl Compiler {
                         });
                     }
                 };
+
+                // Elements of a temp tuple are accessed with signed 8-bit indices
+                if nodes_len > i8::MAX as usize + 1 {
+                    return self.error(ErrorKind::TooManyAssignmentValues(nodes_len));
+                }
 
                 let Ok(size_hint) = u32::try_from(nodes_len) else {
                     return self.error(ErrorKind::TooManyContainerEntries(nodes_len));
